@@ -53,9 +53,8 @@ def hex4L (n : Nat) : Str :=
 def ctrlEscape (x : Nat) : Str :=
   if (1 ≤ x ∧ x ≤ 31) ∨ (127 ≤ x ∧ x ≤ 159) then [92, 117] ++ hex4U x else [x]
 
-/-- helpers.py:339-356, statement by statement -/
-def escapeJsonString (s : Str) (escaped : Bool := false) : Str :=
-  let s := if escaped then replaceAll [92, 34] [34] s else replaceAll [92] [92, 92] s
+/-- the replace chain of `escape_json_string` after the backslash step (shared by both modes) -/
+def escapeChain (s : Str) : Str :=
   let s := replaceAll [34] [92, 34] s      -- "  -> \"
   let s := replaceAll [8] [92, 98] s       -- BS -> \b
   let s := replaceAll [13] [92, 114] s     -- CR -> \r
@@ -64,6 +63,22 @@ def escapeJsonString (s : Str) (escaped : Bool := false) : Str :=
   let s := replaceAll [12] [92, 102] s     -- FF -> \f
   let s := replaceAll [47] [92, 47] s      -- /  -> \/
   s.flatMap ctrlEscape
+
+/-- `escape_json_string(s, escaped=True)` (fixed tree):
+`re.sub(r'\\.|[^\\]+', keep-or-escape, s, flags=DOTALL)` -- a backslash and the character after it are
+kept, the runs between escape sequences go through the unescaped mode (which, on a backslash-free run,
+is the replace chain); a trailing lone backslash is copied.  `run` = the current backslash-free run,
+reversed. -/
+def escapedPass : Str → Str → Str
+  | run, [] => escapeChain run.reverse
+  | run, [92] => escapeChain run.reverse ++ [92]
+  | run, 92 :: c :: t => escapeChain run.reverse ++ 92 :: c :: escapedPass [] t
+  | run, x :: t => escapedPass (x :: run) t
+
+/-- helpers.py :: escape_json_string, statement by statement -/
+def escapeJsonString (s : Str) (escaped : Bool := false) : Str :=
+  if escaped then escapedPass [] s
+  else escapeChain (replaceAll [92] [92, 92] s)
 
 /-! ## helpers.py :: unescape_json_string -/
 
@@ -345,20 +360,26 @@ def rstripZerosDot (t : Str) : Str :=
   let a := (t.reverse.dropWhile (· == 48))
   (a.dropWhile (· == 46)).reverse
 
+/-- `str(x)` of a double followed by `text if 'e' in text else text.rstrip('0').rstrip('.')` -/
+def reprStripped (d : Dec) : Str :=
+  let t := reprDouble d
+  if 101 ∈ t then t else rstripZerosDot t
+
+/-- the decimal normal form of an integer (the exact value `float()` is applied to) -/
+def denInt (n : Int) : Dec :=
+  normDec (decide (n < 0)) (natDigits n.natAbs) (natDigits n.natAbs).length
+
 /-- the number branch of `elem_to_json` (fixed tree): `number = DoubleProxy(value)`,
 `text = str(number)`, `text if 'e' in text else text.rstrip('0').rstrip('.')`.
-`float(value)` followed by `str` is modelled as: read the literal (RFC 8259 number syntax, the only
-texts json-to-xml produces), take its decimal normal form, format it with `reprDouble`.
-TRUSTED: for literals with ≤ 15 significant digits, and for literals that are themselves the `repr`
-of a double, `repr(float(lit))` has exactly the significant digits of `lit`. -/
-def numberOfText (value : Str) : Except Err Str :=
+The text is read as an RFC 8259 number (the only texts json-to-xml produces) and brought to decimal
+normal form; `rnd` is `float()`: rounding to the nearest double, given by the shortest digits of the
+result.  `rnd` is a TRUSTED PARAMETER (CPython's `float(str)` and `float.__repr__` digit generation);
+the check passes the table of the roundings the real run performed, and `float(repr(x)) == x` says
+`rnd d = d` whenever `d` is the repr of a double. -/
+def numberOfText (rnd : Dec → Dec) (value : Str) : Except Err Str :=
   match parseNum value with
-  | some (.int n, []) =>
-    let t := reprDouble (normDec (decide (n < 0)) (natDigits n.natAbs) (natDigits n.natAbs).length)
-    .ok (if 101 ∈ t then t else rstripZerosDot t)
-  | some (.dbl d, []) =>
-    let t := reprDouble d
-    .ok (if 101 ∈ t then t else rstripZerosDot t)
+  | some (.int n, []) => .ok (reprStripped (rnd (denInt n)))
+  | some (.dbl d, []) => .ok (reprStripped (rnd d))
   | _ => .error .other
 
 def joinComma : List Str → Str
@@ -369,7 +390,7 @@ def joinComma : List Str → Str
 mutual
 /-- `elem_to_json((e,))` for one element (_xpath31_functions.py:1134-1245, fixed tree, elements
 without `escaped` / `escaped-key` attributes) -/
-def elemToJson : Elem → Except Err Str
+def elemToJson (rnd : Dec → Dec) : Elem → Except Err Str
   | .mk .null _ text _ =>
     if text.isSome then .error .FOJS0006 else .ok [110, 117, 108, 108]
   | .mk .boolean _ text _ =>
@@ -377,41 +398,41 @@ def elemToJson : Elem → Except Err Str
     if t = [116, 114, 117, 101] ∨ t = [49] then .ok [116, 114, 117, 101]
     else if t = [102, 97, 108, 115, 101] ∨ t = [48] then .ok [102, 97, 108, 115, 101]
     else .error .other
-  | .mk .number _ text _ => numberOfText (text.getD [])
+  | .mk .number _ text _ => numberOfText rnd (text.getD [])
   | .mk .string _ text children =>
     if !children.isEmpty then .error .FOJS0006
     else .ok (34 :: (escapeJsonString (text.getD []) ++ [34]))
   | .mk .array _ _ children => do
-    let cs ← elemsToJson children
+    let cs ← elemsToJson rnd children
     pure (91 :: (joinComma cs ++ [93]))
   | .mk .map _ _ children => do
-    let cs ← membersToJson [] children
+    let cs ← membersToJson rnd [] children
     pure (123 :: (joinComma cs ++ [125]))
-def elemsToJson : List Elem → Except Err (List Str)
+def elemsToJson (rnd : Dec → Dec) : List Elem → Except Err (List Str)
   | [] => .ok []
   | e :: t => do
-    let c ← elemToJson e
-    let cs ← elemsToJson t
+    let c ← elemToJson rnd e
+    let cs ← elemsToJson rnd t
     pure (c :: cs)
 /-- the `for e in child:` loop of the map branch; `seen` = `map_keys` -/
-def membersToJson (seen : List Str) : List Elem → Except Err (List Str)
+def membersToJson (rnd : Dec → Dec) (seen : List Str) : List Elem → Except Err (List Str)
   | [] => .ok []
   | e :: t =>
     match e with
     | .mk _ none _ _ => .error .FOJS0006
     | .mk _ (some key) _ _ => do
       let k := escapeJsonString key
-      let c ← elemToJson e
+      let c ← elemToJson rnd e
       match unescapeJsonString k with
       | none => .error .other
       | some uk =>
         if uk ∈ seen then .error .FOJS0006 else do
-          let cs ← membersToJson (uk :: seen) t
+          let cs ← membersToJson rnd (uk :: seen) t
           pure ((34 :: (k ++ [34, 58]) ++ c) :: cs)
 end
 
 /-- fn:xml-to-json on the root element -/
-def xmlToJson (e : Elem) : Except Err Str := elemToJson e
+def xmlToJson (rnd : Dec → Dec) (e : Elem) : Except Err Str := elemToJson rnd e
 
 /-! ## fn:parse-json post-processing -/
 
@@ -459,5 +480,79 @@ def pjPostM (p : DupPolicy) : List (Str × JValue) → Except Err (List (Str × 
     let t' ← pjPostM p t
     pure ((k, v') :: t')
 end
+
+/-! ## the serializers' escaping of character data and attribute values (fn:serialize, method xml)
+
+fn:serialize delegates to `etree_module.tostringlist`; these are the escaping functions it ends up
+in.  They are library code (CPython 3.12 `xml/etree/ElementTree.py`, libxml2 for lxml), modelled here
+because the round trip `parse-xml(serialize(node))` depends on them; tied on every run against the
+live functions. -/
+
+/-- `xml.etree.ElementTree._escape_cdata` -/
+def etEscapeText (s : Str) : Str :=
+  let s := replaceAll [38] [38, 97, 109, 112, 59] s          -- & -> &amp;
+  let s := replaceAll [60] [38, 108, 116, 59] s              -- < -> &lt;
+  replaceAll [62] [38, 103, 116, 59] s                       -- > -> &gt;
+
+/-- `xml.etree.ElementTree._escape_attrib` -/
+def etEscapeAttr (s : Str) : Str :=
+  let s := replaceAll [38] [38, 97, 109, 112, 59] s
+  let s := replaceAll [60] [38, 108, 116, 59] s
+  let s := replaceAll [62] [38, 103, 116, 59] s
+  let s := replaceAll [34] [38, 113, 117, 111, 116, 59] s    -- " -> &quot;
+  let s := replaceAll [13] [38, 35, 49, 51, 59] s            -- CR -> &#13;
+  let s := replaceAll [10] [38, 35, 49, 48, 59] s            -- LF -> &#10;
+  replaceAll [9] [38, 35, 48, 57, 59] s                      -- TAB -> &#09;
+
+/-- lxml / libxml2 `xmlEscapeContent`-style text escaping: as above plus CR -> `&#13;` -/
+def lxEscapeText (s : Str) : Str := replaceAll [13] [38, 35, 49, 51, 59] (etEscapeText s)
+
+/-- trigger predicate of F17n: the character data contains U+000D -/
+def hasCR (s : Str) : Bool := s.any (· == 13)
+
+/-! ## json-to-xml / xml-to-json with `escape: true` (string level) -/
+
+/-- `re.sub(r'\\(?!/)', r'\\\\', s)`: double every backslash that is not followed by `/` -/
+def doubleBackslash : Str → Str
+  | [] => []
+  | 92 :: t => (match t with | 47 :: _ => [92] | _ => [92, 92]) ++ doubleBackslash t
+  | c :: t => c :: doubleBackslash t
+
+/-- `escape_string` of fn:json-to-xml (option `escape: true`), _xpath31_functions.py -/
+def j2xEscapeString (s : Str) : Str :=
+  let s := doubleBackslash s
+  let s := replaceAll [8] [92, 98] s
+  let s := replaceAll [13] [92, 114] s
+  let s := replaceAll [10] [92, 110] s
+  let s := replaceAll [9] [92, 116] s
+  let s := replaceAll [12] [92, 102] s
+  let s := replaceAll [47] [92, 47] s
+  s.flatMap fun x => if isXmlCodepoint x then [x] else [92, 117] ++ hex4U x
+
+/-- `check_escapes` of fn:xml-to-json (fixed tree): left to right, `\\` followed by one of `urtnfb/"\\`
+(`u` with four hex digits); `false` = FOJS0007 -/
+def checkEscapesF : Nat → Str → Bool
+  | 0, _ => true
+  | _ + 1, [] => true
+  | f + 1, c :: t =>
+    if c = 92 then
+      match t with
+      | [] => false
+      | e :: r =>
+        if e = 117 then
+          if r.length < 4 then false
+          else if (hexRun? (r.take 4)).isSome then checkEscapesF f (r.drop 4) else false
+        else if e = 114 ∨ e = 116 ∨ e = 110 ∨ e = 102 ∨ e = 98 ∨ e = 47 ∨ e = 34 ∨ e = 92 then checkEscapesF f r
+        else false
+    else checkEscapesF f t
+
+def checkEscapes (s : Str) : Bool := checkEscapesF s.length s
+
+/-- the `string` branch of xml-to-json for an element written by json-to-xml with `escape: true`:
+text `value`, attribute `escaped` present iff the text contains a backslash -/
+def x2jStringEscaped (value : Str) : Except Err Str :=
+  let escaped := value.contains 92
+  if escaped && !checkEscapes value then .error .FOJS0007
+  else .ok (34 :: (escapeJsonString value escaped ++ [34]))
 
 end EPV.Json
